@@ -94,7 +94,8 @@ class UntypedAtomic(AnyAtomicType):
                     raise ValueError("{!r} cannot be cast to xs:boolean".format(self.value))
                 return op(value in ('1', 'true'), other)
             case int():
-                return op(get_double(self.value, self._xsd_version), other)
+                # the xs:integer operand is promoted to xs:double too
+                return op(get_double(self.value, self._xsd_version), float(other))
             case None | str() | list():
                 return op(self.value, other)
             case AnyAtomicType():
